@@ -5,6 +5,7 @@ cd "$(dirname "$0")"
 export GOFLAGS=-mod=mod GOPROXY=off GOSUMDB=off GOTOOLCHAIN=local
 mkdir -p .build evidence replays
 (cd lean && lake build)
+python3 gen_gomod.py /repo
 cp /repo/go.sum harness/go.sum
 (cd harness && CGO_ENABLED=0 go build -tags verif -o ../.build/verifharness .)
 echo setup-ok
